@@ -102,6 +102,18 @@ def run(tier):
         scen.append(sc)
     for _ in range(60 if quick else 3000):
         scen.append(fnkey_scenario(rng.choice([2, 3]), rng))
+    # a function key with several arguments (the commas of its argument list do not end the GROUP BY item); k1 is a top-level copy
+    # of the key's value for the monitor
+    for _ in range(20 if quick else 600):
+        n = rng.choice([2, 3])
+        rows = []
+        for i in range(rng.choice([n * 5, n * 6 + 1, 17])):
+            a, b = rng.choice(["x", "y"]), rng.choice(["1", "2"])
+            rows.append({"id": i + 1, "v": rng.choice([1, 2, 3]), "a": a, "b": b, "k1": a + b})
+        aggs = [{"al": "c", "fn": "count_star", "arg": {"k": "star"}, "p": 0}, {"al": "ids", "fn": "collect", "arg": {"k": "col", "c": "id"}, "p": 0}]
+        key = rng.choice(["concat(a, b)", "concat(a,b)", "concat( a , b )"])      # (a literal argument inside a GROUP BY function key is rejected by the parser: not used)
+        scen.append({"meta": {"fam": "batch", "carrier": "counting", "n": n, "gcols": ["k1"], "gout": ["kk"], "aggs": aggs},
+                     "sql": "SELECT %s AS kk, count(*) AS c, collect(id) AS ids FROM stream GROUP BY %s, CountingWindow(%d)" % (key, key, n), "rows": rows, "norename": True})
     # bursts: the producer outruns the counting-window goroutine (held at its first row) by more rows than the window's
     # input queue holds (50 by default): every row still counts, in order
     for _ in range(8 if quick else 200):
@@ -121,6 +133,7 @@ def run(tier):
         sc["perf"] = {"strategy": ["block", "block", "expand", "drop"][i % 4], "blockms": 5000}
         scen.append(sc)
     seqfam.run_scenarios(res, scen, "TraceBatch", tag="batch", relayout_p=0.3, retype_p=0.3, rename_p=0.3)
+    seqfam.run_pinned(res, "TraceBatch")
     res.cov["distinct_nontrivial"] = len({json.dumps(s["rows"], sort_keys=True) + s["sql"] for s in scen if len(s["rows"]) > 1})
     res.cov["rule"] = ("every key sequence of the TLA+ Counting model at the stated bounds (universes: plain keys, separator-like keys, NULL/missing/empty keys, two-column keys) "
                        "plus seeded longer inputs, each replayed in lock-step on the real engine; distinct = distinct (SQL, rows)")
